@@ -2,6 +2,8 @@ package main
 
 import (
 	"bytes"
+	"context"
+	"path/filepath"
 	"encoding/binary"
 	"encoding/json"
 	"fmt"
@@ -10,6 +12,7 @@ import (
 	"os"
 
 	"github.com/sharedcode/sop"
+	"github.com/sharedcode/sop/cache"
 	"github.com/sharedcode/sop/encoding"
 	"github.com/sharedcode/sop/fs"
 
@@ -187,6 +190,122 @@ func c24Write(res *hx.Result, r *hx.Rng, h sop.Handle, slot int) {
 		hx.CoqZ(int64(B-4)), hx.CoqN(uint64(wantCRC))+" "+hx.CoqBytes(block[B-4:])), in)
 }
 
+// c24RegistryPath drives the REAL registry write path (fs.NewRegistry -> registryMap -> updateFileBlockRegion ->
+// writeBlockRegionPayload / markDeleteFileRegion) on one block whose slots are populated with full-entropy ids, and
+// after every Add / Update / Remove compares the raw block before and after: only the 62 bytes of the target slot and
+// the 4 checksum bytes may differ, and the slot must hold exactly the encoded record (or zeroes after a removal).
+func c24RegistryPath(res *hx.Result, r *hx.Rng, work string, round int) error {
+	ctx := context.Background()
+	base := filepath.Join(work, fmt.Sprintf("c24reg-%d", round))
+	os.RemoveAll(base)
+	tbl := "regtbl"
+	if err := os.MkdirAll(filepath.Join(base, tbl), 0o755); err != nil {
+		return err
+	}
+	defer os.RemoveAll(base)
+	l2 := cache.NewL2InMemoryCache()
+	rt, err := fs.NewReplicationTracker(ctx, []string{base}, false, l2)
+	if err != nil {
+		return err
+	}
+	reg := fs.NewRegistry(true, 1, rt, l2) // hash modulus 1: every id lands in block 0, ideal slot = low64 mod 66
+	defer reg.Close()
+	S, B := sop.HandleSizeInBytes, fs.VerifBlockSize
+	seg := filepath.Join(base, tbl, tbl+"-1.reg")
+	readBlock := func() []byte {
+		b, err := os.ReadFile(seg)
+		if err != nil || len(b) < B {
+			return make([]byte, B)
+		}
+		return append([]byte(nil), b[:B]...)
+	}
+	idFor := func(slot int) sop.UUID {
+		var u sop.UUID
+		copy(u[:], r.Bytes(16))
+		lo := binary.BigEndian.Uint64(u[8:])
+		lo = lo - lo%uint64(fs.VerifHandlesPerBlock) + uint64(slot)
+		binary.BigEndian.PutUint64(u[8:], lo)
+		if u[0] == 0 {
+			u[0] = 0xA5
+		}
+		if u[1] == 0 {
+			u[1] = 0x5A
+		}
+		return u
+	}
+	// a run of adjacent slots (including the last slot of the block, whose neighbour is the checksum)
+	start := r.Intn(fs.VerifHandlesPerBlock - 5)
+	if round%3 == 0 {
+		start = fs.VerifHandlesPerBlock - 5
+	}
+	var hs []sop.Handle
+	for k := 0; k < 5; k++ {
+		h := genHandle(r)
+		h.LogicalID = idFor(start + k)
+		hs = append(hs, h)
+	}
+	step := func(kind string, slot int, h sop.Handle, do func() error) {
+		before := readBlock()
+		err := do()
+		after := readBlock()
+		in := c24Input{Kind: "regpath:" + kind, Handle: &h, Slot: slot}
+		res.Seen(fmt.Sprintf("regpath:%s:%d:%x", kind, slot, h.LogicalID[:]), true)
+		res.Count("regpath." + kind)
+		if err != nil {
+			res.Fail("registry-write-error", fmt.Sprintf("%s of slot %d failed: %v", kind, slot, err), in)
+			return
+		}
+		var diffs []int
+		for i := 0; i < B; i++ {
+			if before[i] != after[i] {
+				diffs = append(diffs, i)
+			}
+		}
+		for _, i := range diffs {
+			if (i < slot*S || i >= slot*S+S) && i < B-4 {
+				res.Fail("registry-write-not-local", fmt.Sprintf("%s of slot %d changed byte %d (slot %d) of the block", kind, slot, i, i/S), in)
+				break
+			}
+		}
+		want := make([]byte, S)
+		if kind != "remove" {
+			want, _ = encoding.NewHandleMarshaler().Marshal(h, nil)
+		}
+		if !bytes.Equal(after[slot*S:slot*S+S], want) {
+			res.Fail("registry-slot-content", fmt.Sprintf("after %s slot %d does not hold the expected record", kind, slot), in)
+		}
+		if _, err := fs.VerifUnmarshalData(after); err != nil {
+			res.Fail("crc-position", "block written by the registry does not validate: "+err.Error(), in)
+		}
+		offs := make([]string, len(diffs))
+		for i, d := range diffs {
+			offs[i] = hx.CoqZ(int64(d))
+		}
+		res.AddCase(fmt.Sprintf("RegPathCase %s %s", hx.CoqZ(int64(slot)), hx.CoqList(offs)), in)
+	}
+	pay := func(h sop.Handle) []sop.RegistryPayload[sop.Handle] {
+		return []sop.RegistryPayload[sop.Handle]{{RegistryTable: tbl, IDs: []sop.Handle{h}}}
+	}
+	for k, h := range hs {
+		h := h
+		step("add", start+k, h, func() error { return reg.Add(ctx, pay(h)) })
+	}
+	for _, k := range []int{1, 3} {
+		h := hs[k]
+		h.Version++
+		h.PhysicalIDB = genUUID(r)
+		hs[k] = h
+		step("update", start+k, h, func() error { return reg.UpdateNoLocks(ctx, false, pay(h)) })
+	}
+	for _, k := range []int{2, 0, 4} {
+		h := hs[k]
+		step("remove", start+k, h, func() error {
+			return reg.Remove(ctx, []sop.RegistryPayload[sop.UUID]{{RegistryTable: tbl, IDs: []sop.UUID{h.LogicalID}}})
+		})
+	}
+	return nil
+}
+
 func runC24(cfg *hx.RunCfg) (*hx.Result, error) {
 	res := hx.NewResult("C24")
 	res.Imports = []string{"Lib.Bytes", "Gen.HandleCodec", "Layout", "Corr.C24"}
@@ -256,6 +375,19 @@ func runC24(cfg *hx.RunCfg) (*hx.Result, error) {
 	}
 	for s := 0; s < fs.VerifHandlesPerBlock; s++ { // every slot index
 		c24Write(res, r, genHandle(r), s)
+	}
+	work := os.Getenv("VERIF_WORK")
+	if work == "" {
+		work = cfg.Out
+	}
+	rounds := 12
+	if cfg.Tier == "thorough" {
+		rounds = 120
+	}
+	for k := 0; k < rounds; k++ {
+		if err := c24RegistryPath(res, r, work, k); err != nil {
+			return nil, err
+		}
 	}
 	return res, nil
 }
